@@ -10,7 +10,7 @@ CONSTANTS
   BUD <- BudSim
   ENRS = {TRUE, FALSE}
   WAYSEQS = {0, 1}
-  HSSIGS = {"own", "bad", "zero64", "junk0", "junk63"}
+  HSSIGS = {"own", "bad", "zero64", "junk0", "junk63", "relay"}
   HSRECS = {"none", "own2", "own9", "claimed1"}
   MSGSEL = {"req", "junk", "pong", "nodes2", "intok", "intforeign", "intlate", "intnone", "zerokey"}
   DEPTH = 40
